@@ -26,14 +26,27 @@ type FaultCase struct {
 }
 
 var faultKinds = []string{"errors-early", "assert-early", "vanish", "exit1", "errors-late",
-	"rm-outs", "trunc-outs", "missing-key", "wrong-type", "extra-key", "bad-stage-defs", "no-outs"}
+	"rm-outs", "trunc-outs", "missing-key", "wrong-type", "extra-key", "bad-stage-defs", "no-outs",
+	"null-outs"}
 
 // expectation: "fail" must end failed, "any" unspecified, "skip" not applicable
 func faultExpectation(kind, phase string, split bool, enforce string, nouts int) string {
 	stageLevel := (phase == "main" && !split) || phase == "join"
 	switch kind {
-	case "errors-early", "assert-early", "vanish", "exit1", "errors-late":
+	case "errors-early", "assert-early", "vanish", "exit1", "errors-late", "errors-nojournal":
 		return "fail"
+	case "null-outs":
+		// "null" is not the declared shape of any stage's outputs
+		if phase == "split" {
+			return "fail" // _stage_defs = null
+		}
+		if nouts == 0 {
+			return "any"
+		}
+		if stageLevel || enforce == "error" {
+			return "fail"
+		}
+		return "any"
 	case "bad-stage-defs":
 		if phase == "split" {
 			return "fail"
@@ -346,6 +359,12 @@ func FaultCheck() {
 		r.Eval("replay")
 		r.Sample(c)
 		fmt.Println("expectation:", exp, "class:", o.class)
+		if o.res != nil && o.res.PanicStack != "" && os.Getenv("VERIF_DEBUG") != "" {
+			fmt.Println(o.res.PanicStack)
+		}
+		if o.res2 != nil && o.res2.PanicStack != "" && os.Getenv("VERIF_DEBUG") != "" {
+			fmt.Println(o.res2.PanicStack)
+		}
 		if o.res != nil {
 			fmt.Println("state:", o.res.State, "fatal:", o.res.FatalFq, firstLine(o.res.FatalLog))
 		}
